@@ -580,3 +580,128 @@ func TestC16(t *testing.T) {
 		}
 	}
 }
+
+// ---------------- C09 (windowed limit): the delegate sees each window once, aggregated exactly ----------------
+func TestC09Windowed(t *testing.T) {
+	tr := NewTrace("C09W")
+	rep := NewReport("C09W")
+	defer func() { tr.Close(); rep.Write(t) }()
+	root := NewRng(Seed())
+	nCases := Scale(120, 2500)
+	for ci := 0; ci < nCases; ci++ {
+		r := root.Fork()
+		cfg := LimitCfg{Wrapper: 2, Kind: 5, P: []int64{10}}
+		cfg.MinW = 1e8 * r.Pick(1, 2, 10)
+		cfg.MaxW = cfg.MinW * r.Pick(1, 1, 3)
+		cfg.WSize = r.Pick(10, 10, 12, 20)
+		cfg.Thr = r.Pick(0, 1000, 100_000, 5_000_000)
+		l, err := NewLUT(cfg)
+		if err != nil {
+			rep.Count("constructor-error")
+			continue
+		}
+		c := &caseCtx{Cfg: l.Cfg, rep: rep, prop: "C09", state: map[string]float64{}}
+		tr.Case(30, l.Cfg.Ints()...)
+		type smp struct {
+			rtt, inf int64
+			drop     bool
+		}
+		var seg []smp
+		next := int64(0)
+		now := int64(1_000_000_000)
+		n := Scale(150, 400)
+		for i := 0; i < n; i++ {
+			rtt := r.Pick(cfg.Thr-1, cfg.Thr, cfg.Thr+1, 2_000_000, 10_000_000, 50_000_000, r.Range(1, 300_000_000))
+			if rtt < 0 {
+				rtt = 0
+			}
+			inf := r.Pick(1, 5, cfg.WSize-1, cfg.WSize, cfg.WSize+1, cfg.WSize+5, 100)
+			drop := r.Bool(15)
+			now += r.Pick(1, 1000, cfg.MinW/7, cfg.MinW/2, cfg.MinW)
+			start := now
+			if r.Bool(25) && next > 0 { // end time right around the end of the period
+				start = next - rtt + r.Pick(-1, 0, 1)
+				if start < 0 {
+					start = 0
+				}
+			}
+			p, o := c.sample(l, tr, start, rtt, inf, drop)
+			_ = p
+			// forwarded sample = inner limit's common-sampler emissions (kinds 1 rtt, 2 in-flight, 3 dropped)
+			var fwd []int64
+			gotDrop := false
+			for _, e := range o.Emitted {
+				switch e.Kind {
+				case 1:
+					fwd = append(fwd, int64(fb(e.Bits)))
+				case 2:
+					fwd = append(fwd, int64(fb(e.Bits)))
+				case 3:
+					gotDrop = true
+				}
+			}
+			end := start + rtt
+			qualifies := rtt >= cfg.Thr
+			if qualifies {
+				seg = append(seg, smp{rtt, inf, drop})
+			}
+			var sum, cnt, mx, mn int64
+			mn = math.MaxInt64
+			anyDrop := false
+			for _, s := range seg {
+				if s.inf > mx {
+					mx = s.inf
+				}
+				if s.drop {
+					anyDrop = true
+				} else {
+					sum += s.rtt
+					cnt++
+					if s.rtt < mn {
+						mn = s.rtt
+					}
+				}
+			}
+			ready := qualifies && end > next && int64(int32(inf)) > cfg.WSize
+			if len(fwd) > 0 {
+				rep.Distinct("window-closed", fmt.Sprint(cfg.Ints(), fwd, gotDrop, len(seg)))
+				if !ready {
+					c.violate("windowed:update-not-ready", fmt.Sprintf("delegate updated by a sample that does not close a window (end %d, next %d, in-flight %d, size %d, rtt %d, threshold %d)", end, next, inf, cfg.WSize, rtt, cfg.Thr))
+				}
+				avg := int64(0)
+				if cnt > 0 {
+					avg = sum / cnt
+				}
+				if len(fwd) != 2 || fwd[0] != avg || fwd[1] != mx || gotDrop != anyDrop {
+					c.violate("windowed:wrong-aggregate", fmt.Sprintf("delegate received (rtt,inflight)=%v drop=%v; the window folds to mean %d, max in-flight %d, drop %v over %d qualifying samples", fwd, gotDrop, avg, mx, anyDrop, len(seg)))
+				}
+				pd := 2 * mn
+				if mn == math.MaxInt64 {
+					pd = cfg.MinW // doubling the unset minimum wraps below the minimum window
+				}
+				if pd < cfg.MinW {
+					pd = cfg.MinW
+				}
+				if pd > cfg.MaxW {
+					pd = cfg.MaxW
+				}
+				next = end + pd
+				seg = nil
+			} else if ready {
+				c.violate("windowed:window-not-closed", "a ready window past its period was not forwarded")
+			}
+			if got := l.windowed.VerifNextUpdateTime(); got != next {
+				c.violate("windowed:period", fmt.Sprintf("next update time %d, expected %d", got, next))
+				next = got
+			}
+		}
+		tr.End()
+		if ci == 0 {
+			h := c.History
+			if len(h) > 5 {
+				h = h[:5]
+			}
+			rep.Sample(map[string]interface{}{"limit": "windowed(fixed)", "cfg": l.Cfg.Ints(), "first_ops": h})
+		}
+	}
+}
